@@ -475,6 +475,17 @@ stream queries (`C10_alias_exact_module`, `_std`, `C10_alias_exact_module_toplev
 (`membership_procedure_complete` / `_exact`). Their hypothesis `DocOK` = checked schema + the side condition on scalar
 texts below.
 
+PROVED since (second stage, `Props/C10Composed.lean` + `Props/C10ComposedChecked.lean`, proofs in
+`Lemmas/DeclsComposed*.lean`): the same END TO END FROM THE SOURCE SCHEMA FILES — for every list of source items
+(definitions and extensions of all kinds, any order / files) that `ExtResolve.resolve` accepts, every alias of the file
+printed for the resolved document denotes `Ref` over C11's specification-level merge `refMerge src`
+(`C10_from_sources`, per kind `…_object/_input/_enum/_union/_interface/_scalar` with the merged components explicit,
+`C10_sources_types` / `_no_invented_alias`: nothing lost or invented, `C10_sources_print_ok_iff`,
+`C10_sources_schema_metadata`, `C10_from_sources_perm`: the order of the source items is immaterial; the resolvers file:
+`C10_resolvers_from_sources`, `C10_resolver_result_from_sources`, `C10_resolver_args_from_sources`); and the SCHEMA part of
+`DocOK` is discharged by the schema check (`DocOK_of_checked`, `C10_from_sources_checked`,
+`C10_resolvers_from_sources_checked`): what remains of `DocOK` is exactly the configuration part `CfgOK` below.
+
 Still open:
 * the side condition on configured scalar texts (`DocOK.bagOK`): no identifier of a text starts with `__tmp_`
   (`C10_rename_counterexample`, open finding `findings/C10-fresh-name-captured.json`) or is one of the printer's own
